@@ -71,6 +71,7 @@ func runConcCase(o *hx.Out, f *hx.Flags, k int, kind string) {
 	}
 	defer w.close()
 	o.Case(k)
+	setContract(5, 6, 0x70)
 	r := prng.ForCase(f.Seed, k)
 	var reads atomic.Int64
 	slow := &slowStore{Store: w.nodes[0].st, reads: &reads}
@@ -281,6 +282,7 @@ func runTornSeekCase(o *hx.Out, f *hx.Flags, k int, kind string, viaPrivate bool
 	}
 	defer w.close()
 	o.Case(k)
+	setContract(5, 6, 0x70)
 	p := newPause(w.nodes[0].st)
 	d := dao.NewSimple(p, false)
 	s := d.Store
@@ -406,6 +408,34 @@ func runBatchAtomCase(o *hx.Out, f *hx.Flags, k int, kind string, viaCache bool,
 	if mc != nil {
 		wg.Add(1)
 		go reader(mc, "reader through the cache layer")
+	}
+	if kind != "mem" {
+		// one scan of a disk backend = one read transaction / one iterator snapshot: inside it the two
+		// halves of every batch must carry the same generation
+		wg.Add(1)
+		go func() {
+			defer wg.Done()
+			for {
+				select {
+				case <-stop:
+					return
+				default:
+				}
+				var a, b int64 = -2, -2
+				be.Seek(storage.SeekRange{}, func(k, v []byte) bool {
+					if bytes.Equal(k, keyA) {
+						a = dec(v)
+					} else if bytes.Equal(k, keyB) {
+						b = dec(v)
+					}
+					return true
+				})
+				if a != b {
+					report("one scan (one snapshot) of %s saw the non-storage half at generation %d and the storage half at generation %d", kind, a, b)
+				}
+				reads.Add(1)
+			}
+		}()
 	}
 	for g := 1; g <= batches; g++ {
 		if err := apply(uint32(g)); err != nil {
